@@ -257,6 +257,8 @@ def render(case, P):
         elif kind == "rawls":
             # low-level cursor, one object for the whole history: partial listings (0..4 entries) leave it in the middle of a header run
             lines.append("rawls %d %d" % (rnd_ref if bad else (dirs[a % len(dirs)] if inv != 1 else allr[a % len(allr)]), -1 if c % 4 == 0 else b % 5))
+        elif kind == "mcont":
+            lines.append("mcont %d" % [40, 600, 3000, 9000, 20000][c % 5])
         elif kind == "rawcont":
             lines.append("rawcont %d" % (-1 if c % 4 == 0 else 1 + b % 5))
         elif kind == "resolve":
